@@ -150,7 +150,8 @@ pub fn run_cases(
         cases,
         failure_persistence: None,
         rng_seed: RngSeed::Fixed(seed),
-        max_shrink_iters: 2000,
+        // file-backed cases are expensive: bound the shrinking work there
+        max_shrink_iters: if matches!(ctx.prop.as_str(), "C08" | "C09") { 48 } else { 2000 },
         max_global_rejects: 0,
         ..Config::default()
     };
